@@ -1034,7 +1034,7 @@ def parse_tree_to_objgraph(
             # Dict for storing rules where key is position of rule instance in
             # text. Sorted based on nested rules.
             model._pos_rule_dict = OrderedDict(
-                sorted(pos_rule_dict.items(), key=lambda x: x[0], reverse=True)
+                sorted(pos_rule_dict.items(), key=lambda x: (-x[0][0], x[0][1]))
             )
     # exception occurred during model creation
     except:  # noqa
